@@ -29,6 +29,7 @@ type AtClause struct {
 
 type LoopSpec struct {
 	Invariants  []Clause
+	Steps       []Clause // "step [label:] e": proved at every back edge; prev(x) is x at the loop head of the same iteration
 	Decreases   *Clause
 	Modifies    []Clause
 	HasModifies bool
@@ -125,7 +126,7 @@ func NewSpecs() *Specs {
 var propsRe = regexp.MustCompile(`\[(C[0-9]+(?:\s*,\s*C[0-9]+)*)\]`)
 
 var clauseKeywords = map[string]bool{
-	"requires": true, "ensures": true, "check": true, "at": true, "modifies": true, "loop": true, "invariant": true,
+	"requires": true, "ensures": true, "check": true, "at": true, "modifies": true, "loop": true, "invariant": true, "step": true,
 	"decreases": true, "replay:": true, "flag": true, "end": true, "ghostset": true, "ghostinit": true,
 }
 var topKeywords = map[string]bool{
@@ -311,7 +312,7 @@ func (sp *Specs) ParseFile(path, pkgPath string) error {
 			}
 			cur.AtCalls = append(cur.AtCalls, AtClause{Callee: callee, Clause: c})
 			curLoop = nil
-		case "requires", "ensures", "invariant", "decreases", "check":
+		case "requires", "ensures", "invariant", "decreases", "check", "step":
 			if cur == nil {
 				return fmt.Errorf("%s:%d: %s outside a func block", path, l.line, l.kw)
 			}
@@ -334,6 +335,11 @@ func (sp *Specs) ParseFile(path, pkgPath string) error {
 					return fmt.Errorf("%s:%d: invariant outside a loop block", path, l.line)
 				}
 				curLoop.Invariants = append(curLoop.Invariants, c)
+			case "step":
+				if curLoop == nil {
+					return fmt.Errorf("%s:%d: step outside a loop block", path, l.line)
+				}
+				curLoop.Steps = append(curLoop.Steps, c)
 			case "decreases":
 				if curLoop == nil {
 					return fmt.Errorf("%s:%d: decreases outside a loop block", path, l.line)
